@@ -9,6 +9,17 @@ import sqlite3
 from . import sqlite_factory as F
 
 
+def mx_frame(work):
+    """mxFrame of the wal-index header (bytes 16..20 of the -shm file, native little-endian): it changes exactly
+    when a transaction appends frames (or the log restarts)"""
+    try:
+        with open(work + "-shm", "rb") as fh:
+            b = fh.read(24)
+        return (int.from_bytes(b[16:20], "little"), int.from_bytes(b[8:12], "little"))
+    except OSError:
+        return (0, 0)
+
+
 class History:
     def __init__(self):
         self.db = None
@@ -98,6 +109,7 @@ def make_history(base, cfg, r, n_commits=None, kind=None):
     con.execute("PRAGMA wal_checkpoint(TRUNCATE)")
     h.snapshots.append(snapshot(con, tables))
     n_commits = n_commits if n_commits is not None else r.randint(1, 6)
+    wal_size = mx_frame(work)
     stale_generation = False
     for k in range(n_commits):
         op = kind
@@ -175,13 +187,19 @@ def make_history(base, cfg, r, n_commits=None, kind=None):
             else:
                 ins(3)
         con.execute("COMMIT")
-        h.events.append(op)
-        h.snapshots.append(snapshot(con, tables))
-        wal_size = os.path.getsize(work + "-wal") if os.path.exists(work + "-wal") else 0
+        now = mx_frame(work)
+        if now != wal_size:
+            # only a transaction that wrote frames makes a version
+            h.events.append(op)
+            h.snapshots.append(snapshot(con, tables))
+        else:
+            h.events.append(op + ":no-frames")
+        wal_size = now
         if kind == "checkpoint_restart" and k == n_commits // 2 and not stale_generation and k + 1 < n_commits:
             # checkpoint everything; the next write restarts the WAL and leaves stale frames behind
             con.execute("PRAGMA wal_checkpoint(FULL)")
             stale_generation = True
+            wal_size = mx_frame(work)
             h.snapshots = [h.snapshots[-1]]
             h.events.append("checkpoint+restart")
         if kind == "passive_checkpoint" and k == n_commits // 2:
@@ -195,8 +213,8 @@ def make_history(base, cfg, r, n_commits=None, kind=None):
             # two statements that may each commit: a snapshot is recorded for each one that wrote frames
             for stmt in ("DELETE FROM t0 WHERE rowid % 2 = 0", "PRAGMA incremental_vacuum"):
                 con.execute(stmt).fetchall()
-                now = os.path.getsize(work + "-wal") if os.path.exists(work + "-wal") else 0
-                if now > wal_size:
+                now = mx_frame(work)
+                if now != wal_size:
                     h.events.append("shrink:" + stmt.split()[0].lower())
                     h.snapshots.append(snapshot(con, tables))
                     wal_size = now
